@@ -445,7 +445,10 @@ def runCase (c : Case) : Verdict := Id.run do
           let cands := (List.range o.entries.size).filter fun i =>
             let e := o.entries[i]!
             e.ring == ring && e.ud == ud && e.submitted && !e.done
-          match cands with
+          -- entries sharing a user_data are identical operations (generator discipline): attribute the
+          -- completion to one whose deadline has passed, if any
+          let dueCands := cands.filter fun j => let x := o.entries[j]!; x.at_ + x.lat ≤ o.now
+          match dueCands ++ cands with
           | [] => oErr := some s!"completion for user_data {ud} without an outstanding submission (duplicate or phantom)"
           | i :: _ =>
             let e := o.entries[i]!
@@ -526,12 +529,17 @@ def runCase (c : Case) : Verdict := Id.run do
       if let some r := o.rings[ring]? then
         if lost.contains ring then pure ()
         else if (r.dead || r.dropped) && obsMain != "err notfound" then oErr := some s!"readable on a dead ring returned [{obsMain}]"
-        -- readiness must not be reported before any outstanding deadline
-        if obsMain == "ready" then
-          let any := (List.range o.entries.size).any fun i =>
-            let e := o.entries[i]!
-            e.ring == ring && e.submitted && !e.done
-          if !any then oErr := some "readable reported readiness with no outstanding submission"
+        -- readiness must not be reported before any outstanding deadline, and must be once one has passed
+        else if !(r.dead || r.dropped) then
+          let out_ := o.entries.toList.filter fun e => e.ring == ring && e.submitted && !e.done
+          let targeted := fun (e : OEntry) => o.entries.toList.any fun c =>
+            c.ring == ring && c.submitted && (match c.kind with | .cancel t => t == e.ud | _ => false)
+          let due := out_.filter fun e => e.at_ + e.lat ≤ o.now
+          let maybe := out_.filter fun e => e.at_ + e.lat ≤ o.now || targeted e
+          if obsMain == "ready" && maybe.isEmpty then
+            oErr := some s!"AsyncFd::readable ready at {o.now}ns although no completion can be due"
+          if obsMain == "pending" && !due.isEmpty then
+            oErr := some s!"AsyncFd::readable pending at {o.now}ns although {due.length} completions are due"
     | .fclose fd => if fd < nfiles then o := { o with fileOpen := o.fileOpen.set! fd false }
     | .fopen fd =>
       if fd < nfiles && !(o.fileOpen.getD fd false) then
